@@ -106,8 +106,14 @@ def run(ctx):
         sums = [s for s in sides if isinstance(s, ast.BinOp) and isinstance(s.op, ast.Add)]
         if len(signs) == 1 and len(sums) == 1:
             parts = [sums[0].left, sums[0].right]
+            def base36(e):
+                # the literal 36, or a branch variable that folds to 36 in both letter branches
+                if norm(e) == '36':
+                    return True
+                return isinstance(e, ast.Name) and all(
+                    fold_ref(b_, 1).get(e.id, UNKNOWN) == 36 for b_ in (b_upper, b_lower))
             ints = [p for p in parts if isinstance(p, ast.Call) and call_name(p) == 'int'
-                    and len(p.args) == 2 and norm(p.args[0]) == str_var and norm(p.args[1]) == '36']
+                    and len(p.args) == 2 and norm(p.args[0]) == str_var and base36(p.args[1])]
             refs = [p for p in parts if isinstance(p, ast.Name)]
             if len(ints) == 1 and len(refs) == 1:
                 ref_name = refs[0].id
@@ -198,6 +204,15 @@ def run(ctx):
                 validated = True
             if ('.isascii()' in t and ('.isdigit()' in t or '.isdecimal()' in t)):
                 validated = True
+    if not validated and not d_rets and set_name is not None and ok_loop:
+        # the digit branch shares the validation loop and the conversion of the
+        # letter branches: it selects the digit alphabet, base 10 and offset 0
+        env_d = fold_ref(b_digit, 1)
+        sel = env_d.get(set_name, UNKNOWN)
+        base_name = next((norm(p_.args[1]) for p_ in ast.walk(final.value) if isinstance(p_, ast.Call)
+                          and call_name(p_) == 'int' and len(p_.args) == 2), None)
+        validated = isinstance(sel, (set, frozenset)) and set(sel) == digits \
+            and env_d.get(base_name, UNKNOWN) == 10 and env_d.get(ref_name, UNKNOWN) == 0
     # the digit conversion itself
     conv = [c for c in calls_in(b_digit) if call_name(c) == 'int']
     ctx.ob('C19.R2', 'validate:digit-branch', validated,
